@@ -1,6 +1,6 @@
 """C08 — limb representation: normalisation, shifts, encoding."""
 PROPS_VO = "Props/C08.vo"
-EXTRA_VO = ["Props/C08Encode.vo"]
+EXTRA_VO = ["Props/C08Encode.vo", "Props/C08Wide.vo"]
 PROFILES = ["release"]
 RULE = ("harness c08: digit/carry kernels (both widths, every radix), all step kernels on ZnxRef + four backends "
         "with SIMD-tail lengths, boundary-dictionary values; vector-level normalise (same/cross radix, big accumulators of both families, fused forms), "
